@@ -52,7 +52,8 @@ FR = ["Foo v. Bar, 1 U.S. 1 (1999)", "2 F.2d 3, 5", "Id. at 5", "Foo, supra, at 
       "Peña v. Doe, 5 Cal. 4th 6", "Shapiro v. Thompson, 394 U. S. 618", "2 P.R. 3 (1831)", "1 Wash. 1",
       "supra,§,", "1 CCH Unemployment Ins. Rep. 1", "550 U.S., at 556", "3 Cranch 137"]
 PROBES = ["See Pub. L. No. 94-553 §§ 1-2 and more.", "Halper v. Taney, 1999; Taney ___ (1999)",
-          "1 CCH Unemployment Ins. Rep. 1\n1 CCH Unemployment Ins. Rep. 1\n", "“1 U.S. 1”", "é1 U.S. 1", "1 U.S. 1é", "see—Id. at 5—ok", "1 U.S. 1 “ 2 F.2d 3", "x § 5 y", "¶12,345"]
+          "1 CCH Unemployment Ins. Rep. 1\n1 CCH Unemployment Ins. Rep. 1\n", "“1 U.S. 1”", "é1 U.S. 1", "1 U.S. 1é", "see—Id. at 5—ok", "1 U.S. 1 “ 2 F.2d 3", "x § 5 y", "¶12,345",
+          "585 U.S. ___ (2018)", "585 U.S. __a", "585 U.S. ___3 and", "Pub. L. 111-148 was enacted", "see §5x and"]
 
 
 def plan(tier, seed):
@@ -85,10 +86,24 @@ def classify(v):
 
 # ---------------------------------------------------------------- (a)-(c)
 
+def edge_fragment(rng):
+    """Matches whose pattern tail can also take the character that should be their boundary: placeholder
+    pages ('_' is a page character and a legal boundary), patterns ending in optional white space or in a
+    greedy class."""
+    k = rng.random()
+    if k < 0.5:
+        return (f"{gen.num(rng)} {gen.rep(rng)} {'_' * rng.randint(1, 4)}"
+                + rng.choice(["", " (2018)", "a", "3", "_x", ")", ";", " ", "_ ", ", 5"]))
+    if k < 0.7:
+        return rng.choice(["Pub. L. 111-148 was", "Pub. L. No. 94-553  and", "§5x", "§§ 5x-6", "x§5", "Id.,at 5", "supra,at"])
+    return gen.member(rng) + rng.choice(["_", "__ ", " _", "a", "1", " 1", ""])
+
+
 def doc(rng):
     out = []
     for _ in range(rng.randint(1, 6)):
-        f = rng.choice(FR) if rng.random() < 0.7 else gen.frag(rng)
+        r0 = rng.random()
+        f = edge_fragment(rng) if r0 < 0.12 else rng.choice(FR) if r0 < 0.7 else gen.frag(rng)
         r = rng.random()
         if r < 0.3:
             f = rng.choice(MB) + f
